@@ -94,8 +94,44 @@ def x_scripts(name, types):
                     lines.append(step_line(g, ei))
                 lines.append("E")
                 meta[xid] = (name, init, path, ty)
+    if name.startswith("one"):
+        # the same behaviours on a buffer of 2^32 + cap slots (element type unsigned char; the storage is only touched where elements
+        # are): every behaviour that never fills the model's buffer and does not resize -- its answers do not depend on the capacity
+        def small(e):
+            d = g.states[e[1]]
+            return e[2] in ("PushBackA", "PushFrontA", "PopBackA", "PopFrontA", "ClearA") and len(d["buf"]["A"]) < d["cap"]["A"]
+        for init in g.init:
+            s0 = g.states[init]
+            if len(s0["buf"]["A"]) != 0 or s0["cap"]["A"] < 3:
+                continue
+            for pi, path in enumerate(walks_within(g, init, small)):
+                xid = "%s-%d-%d-huge" % (name, init % 100000, pi)
+                lines.append("X %s type=u8 ow=%d cap=%d init=0 huge=1" % (xid, ow, s0["cap"]["A"]))
+                lines += [step_line(g, ei) for ei in path]
+                lines.append("E")
+                meta[xid] = (name, init, path, "u8")
     ncov = sum(1 for ei in covered if flt is None or flt(g.edges[ei]))
     return g, meta, "\n".join(lines) + "\n", st, (ncov, nwant)
+
+
+def walks_within(g, init, ok, limit=60):
+    """Paths from init that only use edges accepted by ok(), covering each such reachable edge once (depth-first)."""
+    paths, seen = [], set()
+
+    def rec(node, path, depth):
+        ext = False
+        for ei in g.out.get(node, ()):
+            if ei in seen or not ok(g.edges[ei]) or depth >= 12:
+                continue
+            seen.add(ei)
+            ext = True
+            path.append(ei)
+            rec(g.edges[ei][1], path, depth + 1)
+            path.pop()
+        if not ext and path:
+            paths.append(list(path))
+    rec(init, [], 0)
+    return paths[:limit]
 
 
 def compare(g, init, path, ty, recs):
